@@ -3,9 +3,11 @@
 import json, os
 root = os.path.dirname(os.path.dirname(os.path.abspath(__file__)))
 
-def cls(s0, s1, s2, ingress=-1, ptype=1, dl=0, sl=0, pld=8, nh=17, rsv0=0, headroom=64):
-    return {"ptype": ptype, "dl": dl, "sl": sl, "pld": pld, "s0": s0, "s1": s1, "s2": s2,
-            "ingress": ingress, "nh": nh, "rsv0": rsv0, "headroom": headroom}
+def cls(s0, s1, s2, ingress=-1, ptype=1, dl=0, sl=0, pld=8, nh=17, rsv0=0, headroom=64, **extra):
+    d = {"ptype": ptype, "dl": dl, "sl": sl, "pld": pld, "s0": s0, "s1": s1, "s2": s2,
+         "ingress": ingress, "nh": nh, "rsv0": rsv0, "headroom": headroom}
+    d.update(extra)
+    return d
 
 STUBS = ["vMAC: AES-CMAC under the forwarding key = uninterpreted function hfmac(16-byte input) -> 16 bytes (functional; the solver picks the values)",
          "vLink: harness Link implementation recording Resolve/Send; Resolve fails with ErrNoSVCBackend for service addresses when the symbolic flag svc.missing is set",
@@ -65,18 +67,27 @@ specs = {
              extra_notcov=["one-hop path completion is checked by C12's clause only-second-hop-and-segid-change"]),
 }
 specs["C09"] = spec("C09", ["c09"], "VerifC09", "VerifC09Twin", ["scmp-emitted", "parameter-problem", "external-interface-down", "internal-connectivity-down", "destination-unreachable", "no-reply"],
-             [cls(2, 0, 0, ingress=1), cls(2, 0, 0, ingress=0), cls(2, 0, 0, ingress=3), cls(2, 0, 0, ingress=1, nh=202), cls(2, 0, 0, ingress=1, headroom=512)],
-             [A3, cls(2, 2, 0, ingress=1), cls(3, 0, 0, ingress=1, nh=202), cls(3, 0, 0, ingress=1, headroom=512), cls(3, 0, 0, ingress=0, sl=3), cls(2, 0, 0)], cls(2, 0, 0, ingress=1), level_text=LT.replace("fast path (", "fast path and slow path (slowPathPacketProcessor.processPacket / packSCMP / prepareSCMP; "), rsv0=1,
+             [cls(2, 0, 0, ingress=1), cls(2, 0, 0, ingress=0), cls(2, 0, 0, ingress=1, nh=202), cls(2, 0, 0, ingress=1, big=1300, lh6=1)],
+             [cls(2, 0, 0, ingress=1, big=1300), cls(2, 0, 0, ingress=1, big=1100, lh6=1, sl=3), cls(2, 0, 0, ingress=3), cls(2, 0, 0, ingress=1, headroom=512), A3, cls(2, 2, 0, ingress=1), cls(3, 0, 0, ingress=1, nh=202), cls(3, 0, 0, ingress=1, headroom=512), cls(3, 0, 0, ingress=0, sl=3), cls(2, 0, 0)], cls(2, 0, 0, ingress=1), level_text=LT.replace("fast path (", "fast path and slow path (slowPathPacketProcessor.processPacket / packSCMP / prepareSCMP; "), rsv0=1,
              extra_assume=["reserved bits of the offending packet's path meta header, info fields and hop fields are zero (scion.Raw.ToDecoded re-serialises the meta header into the packet buffer before it is quoted, which would clear non-zero reserved bits)",
-                           "the router's own address is IPv4 10.1.2.3; SCMP authentication is off",
+                           "the router's own address is IPv4 10.1.2.3, or IPv6 fd00::a01:203 in the instances with lh6=1; SCMP authentication is off",
                            "checksum clause: the emitted checksum equals what the real slayers checksum code computes over the emitted message with the emitted pseudo header (the arithmetic itself is C20's subject)"],
-             extra_notcov=["offending packets larger than the class (the 1232-byte truncation regime is exercised only through the arithmetic on concrete lengths: quote length = min(len, 1232 - headers))", "authenticated SCMP (ExperimentalSCMPAuthentication) and traceroute replies", "cause table beyond type/code/pointer consistency with the fast-path request (the request itself is checked by C01, C05, C06)"])
+             extra_notcov=["offending packets beyond the listed sizes; in the large-packet instances (parameter big) only the class's leading bytes are symbolic, the remaining payload is concrete zeros (lengths, truncation at 1232 bytes and the checksum over the truncated quote are exercised, payload content is not)", "authenticated SCMP (ExperimentalSCMPAuthentication) and traceroute replies", "cause table beyond type/code/pointer consistency with the fast-path request (the request itself is checked by C01, C05, C06)"])
 specs["C09"]["term_opts"] = ["linsum", "sumabs"]
 OH = lambda **kw: cls(0, 0, 0, ptype=2, **kw)
 specs["C12"] = spec("C12", ["c12"], "VerifC12", "VerifC12Twin", ["ohp-out", "ohp-in"],
              [OH(), OH(sl=3, dl=3), OH(nh=202)], [OH(dl=1, sl=2), OH(nh=203), OH(pld=20, nh=6)], OH(ingress=0), level_text=LT, rsv0=1,
              extra_assume=["reserved bits of the common header and of the one-hop path are zero (the router re-serialises the whole SCION header of a one-hop packet)"],
              extra_notcov=["the clause that the reversed one-hop path is accepted by both routers (needs a two-router walk: see C03 in DESIGN.md)", "bfdSend.Send (BFD over one-hop paths)"])
+c08 = spec("C08", ["c08"], "VerifC08", "VerifC08Twin", ["processed", "forwarded", "emitted"], [], [], {"ingress": 1, "headroom": 64, "len": 72}, level_text="Bounded symbolic model checking of the real fast path and slow path on completely unconstrained byte strings of every listed length (no layout assumptions: the engine discovers the layouts by forking), on every ingress link kind: no feasible Go run-time panic (index, slice, nil, failed assertion, explicit panic) on any path, and every forwarded or emitted packet decodes with consistent header length, payload length and path pointers.",
+           extra_assume=[], extra_notcov=["byte strings longer than 80 bytes (thorough) / the listed lengths (quick); STUN messages and internalLink.processPacket (package udpip)", "SCMP authentication on"])
+c08["entries"] = [{"func": "VerifC08", "params": {"ingress": -1, "headroom": 64, "len": n}, "tiers": ["quick", "thorough"]} for n in (0, 1, 11, 12, 13, 35, 36, 40, 44, 68, 72)] + \
+    [{"func": "VerifC08", "params": {"ingress": -1, "headroom": 64}, "sweep": {"len": {"thorough": [2, 80]}}, "tiers": ["thorough"]},
+     {"func": "VerifC08Twin", "params": {"ingress": 1, "headroom": 64, "len": 72}, "must_fail": True}]
+c08["assumptions"] = [ASSUME[0]]
+c08["not_covered"] = c08["not_covered"][-2:]
+c08["term_opts"] = ["linsum", "sumabs"]
+specs["C08"] = c08
 for pid, s in specs.items():
     json.dump(s, open(os.path.join(root, "checks", pid + ".json"), "w"), indent=1)
 print("written", sorted(specs))
